@@ -128,7 +128,9 @@ def main() -> int:
                 plan["seed"] = seed
                 plan["engine"] = batch["engine"]
                 plan["profile"] = profile
+                t_run = time.time()
                 out = run_one(engine, plan, ctx)
+                print(f"[w{widx}] {agg['label']} run {i} seed {seed}: {time.time() - t_run:.1f}s, {time.time() - t0:.0f}s of {budget:.0f}s budget", flush=True)
                 agg["runs"] += 1
                 agg["evaluations"] += int(out.get("evaluations", 0))
                 for k, v in (out.get("counters") or {}).items():
